@@ -163,6 +163,9 @@ compare_harness!(c04_fold_gt, BinOpKind::Gt, CompareOpKind::Gt, >); // tier=thor
 compare_harness!(c04_fold_gte, BinOpKind::Gte, CompareOpKind::Gte, >=); // tier=thorough
 // @verif-end
 
+// (A harness on Map/List/Tuple::as_const with one symbolic non-literal slot was tried and dropped: building the
+// boxed AST with a symbolic variant per slot does not get through CBMC in 900 s.)
+
 #[cfg(test)]
 mod playback {
     use super::*;
